@@ -142,6 +142,9 @@ func (C11) Gen(r *simrt.RNG, tier string) core.Case {
 		if r.Bool() {
 			t.Out = []world.Slot{{Label: world.Label{Type: 11}}}
 		}
+		if r.Chance(1, 3) {
+			t.In = nil // nothing to resolve: the memo is all there is to consult
+		}
 		w.Parties = append(w.Parties, t)
 		ti := len(w.Parties) - 1
 		base := w.Ops[0].Args
